@@ -65,3 +65,37 @@ def dependent_variables(cx):
         dep = r.t[0].t
         return z3.And(uses_param_closed(dep, init.t, nI), uses_param_closed(dep, body.t, nB), dep_closed(dep, init.t, nI), dep_closed(dep, body.t, nB))
     cx.ensures(post)
+
+
+def _uses_common(cx):
+    a = cx.ref('assignment'); fs = cx.set('free_symbols_of_assignment', DRef('Symbol'))
+    cx.isinstance(lambda ex, st, o, c: z3.BoolVal(True))           # the callers pass Assignment objects (asserted by the code itself)
+    cx.call('get_free_symbols', lambda ex, st, r, x, kw: fs, trusted='Assignment.get_free_symbols')
+    return a, fs
+
+
+@contract(F, 'SensivitiyAnalyzer._assignment_uses_parameter', ['C10'])
+def uses_parameter(cx):
+    """true iff the parameter is a free symbol of the assignment"""
+    a, fs = _uses_common(cx); p = cx.ref('param')
+    cx.param(cls=cx.ref('cls'), assignment=a, param=p)
+    cx.ensures(lambda st, r: r.t == member(fs.t, p.t))
+
+
+@contract(F, 'SensivitiyAnalyzer._assignment_uses_dependent_variable', ['C10'])
+def uses_dependent_variable(cx):
+    """true iff some variable of the given set is a free symbol of the assignment"""
+    a, fs = _uses_common(cx); vs = cx.set('vars', DRef('Symbol'))
+    cx.param(cls=cx.ref('cls'), assignment=a, vars=vs)
+    v_ = z3.Const('v_', REF)
+
+    def intersection(ex, st, r, x, kw):
+        o = x[0]
+        if r.kind != 'set' or o.kind != 'set': raise OutOfReach('intersection')
+        i_ = ex.fresh(r.t.sort(), 'common'); w = ex.fresh(I, 'w')
+        # the common elements, as a duplicate-free container: x in it <=> x in both; non-empty <=> it has a first element
+        ex.axioms += [z3.ForAll([v_], member(i_, v_) == z3.And(member(r.t, v_), member(o.t, v_))),
+                      z3.Implies(z3.Length(i_) > 0, member(i_, i_[0]))]
+        return V('set', i_, ek=DRef())
+    cx.call('intersection', intersection, trusted='set.intersection')
+    cx.ensures(lambda st, r: r.t == z3.Exists([v_], z3.And(member(vs.t, v_), member(fs.t, v_))))
